@@ -24,7 +24,7 @@ V4 = "3f7f0c5f-5d54-4292-94ea-ec1e1952be0"
 MUST_REFUSE = {"ref-to-marking-flavour-name", "ref-to-extension-name", "unregistered-type", "unregistered-type+extdef-property-extension", "unregistered-type+extdef-toplevel-extension",
                "x-property", "unknown-property", "unregistered-extension", "unknown-hash", "non-vocabulary-hash", "ref-to-unregistered-type", "unregistered-member-type",
                "custom_properties-in-json", "custom-property-in-extdef-toplevel-object", "extension-key-names-object-type", "extension-key-names-observable-type",
-               "extension-key-names-marking-flavour", "unknown-hash-first", "non-vocabulary-hash-first", "ref-to-2.1-only-type"}
+               "extension-key-names-marking-flavour", "unknown-hash-first", "non-vocabulary-hash-first", "ref-to-2.1-only-type", "extensions-claim-without-extension-mechanism"}
 
 
 def sites(base, version, tkey):
@@ -86,6 +86,10 @@ def sites(base, version, tkey):
         if version == "2.1":
             out.append(("extensions", ("extensions",), "extdef-property-extension", lambda j: ext(j, "extension-definition--" + V4 + "3", {"extension_type": "property-extension", "rank": 1})))
             out.append(("extensions", ("extensions",), "extdef-toplevel-extension", lambda j: ext(j, "extension-definition--" + V4 + "4", {"extension_type": "toplevel-property-extension"}, ext_rank=1)))
+    if version == "2.0" and "extensions" not in c["properties"] and base.get("type") != "bundle":
+        # no extension mechanism on this class: 'extensions' (and whatever it claims to legitimise) is custom content
+        out.append(("top-level", (), "extensions-claim-without-extension-mechanism",
+                    lambda j: dict(j, foo_unknown=1, extensions={"extension-definition--" + V4 + "6": {"extension_type": "toplevel-property-extension"}})))
     if c["properties"].get("objects", {}).get("kind") == "list" and isinstance(base.get("objects"), list):
         out.append(("bundle", ("objects",), "unregistered-member-type", lambda j: dict(j, objects=j["objects"] + [dict({"type": "x-unreg", "id": "x-unreg--" + V4 + "5", "created": "2016-05-12T08:17:27.000Z",
                                                                                                                           "modified": "2016-05-12T08:17:27.000Z", "foo": 1}, **({"spec_version": "2.1"} if version == "2.1" else {}))])))
